@@ -16,6 +16,7 @@ the entry read is the head of the stack).
 import Proxy.Model
 import Lemmas.Abs
 import Lemmas.Pipe
+import Side.Config
 open GoStd Sip Proxy Lemmas
 
 namespace Props.C13
@@ -224,5 +225,63 @@ example : (getRoute realCm { exMsg with headers := [{ name := routeName, value :
 
 /-- `C13_hop_none`: no Route header -/
 example : getRoute realCm exMsgNoRoute = none := by decide +kernel
+
+/-! ### the two start-up decisions C13 depends on (main.go, Side.Config; tied by stream `cfg`)
+
+"... according to the service's keep-next-hop-route setting" and "an alias that resolves to it": how the setting's
+text becomes a boolean, and which address an alias has when the global `hosts:` section and the service's own both
+define it. -/
+
+/-- a fold over a host list that meets no entry for the name leaves its accumulator alone -/
+theorem lookup_fold_skip (name : Bytes) (l : List (Bytes × Bytes)) (a : Option Bytes)
+    (h : ∀ p ∈ l, ¬ (p.1 == name)) :
+    l.foldl (fun acc p => if p.1 == name then some p.2 else acc) a = a := by
+  induction l generalizing a with
+  | nil => rfl
+  | cons x xs ih =>
+    simp only [List.foldl_cons]
+    have hx : ¬ (x.1 == name) := h x (by simp)
+    simp only [hx, Bool.false_eq_true, ↓reduceIte]
+    exact ih a (fun p hp => h p (by simp [hp]))
+
+/-- a fold that meets an entry for the name forgets where it started -/
+theorem lookup_fold_forgets (name : Bytes) (l : List (Bytes × Bytes)) (a b : Option Bytes)
+    (hex : ∃ p ∈ l, p.1 == name) :
+    l.foldl (fun acc p => if p.1 == name then some p.2 else acc) a
+      = l.foldl (fun acc p => if p.1 == name then some p.2 else acc) b := by
+  induction l generalizing a b with
+  | nil => obtain ⟨p, hp, _⟩ := hex; cases hp
+  | cons x xs ih =>
+    simp only [List.foldl_cons]
+    by_cases hx : x.1 == name
+    · simp only [hx, ↓reduceIte]
+    · simp only [hx, Bool.false_eq_true, ↓reduceIte]
+      refine ih a b ?_
+      obtain ⟨p, hp, hpn⟩ := hex
+      rcases List.mem_cons.mp hp with rfl | hp'
+      · exact absurd hpn hx
+      · exact ⟨p, hp', hpn⟩
+
+/-- the service's own entry for a name overrides the global one -/
+theorem C13_service_alias_overrides_global (glob service : List (Bytes × Bytes)) (name ip : Bytes)
+    (h : Side.Config.lookupHost service name = some ip) :
+    Side.Config.lookupHost (Side.Config.hostTable glob service) name = some ip := by
+  unfold Side.Config.hostTable Side.Config.lookupHost at *
+  rw [List.foldl_append]
+  have hex : ∃ p ∈ service, p.1 == name := by
+    apply Classical.byContradiction
+    intro hno
+    rw [lookup_fold_skip name service none (fun p hp hpn => hno ⟨p, hp, hpn⟩)] at h
+    cases h
+  rw [lookup_fold_forgets name service _ none hex]
+  exact h
+
+/-- a name only the global section defines keeps its global address -/
+theorem C13_global_alias_kept (glob service : List (Bytes × Bytes)) (name : Bytes)
+    (h : ∀ p ∈ service, ¬ (p.1 == name)) :
+    Side.Config.lookupHost (Side.Config.hostTable glob service) name = Side.Config.lookupHost glob name := by
+  unfold Side.Config.hostTable Side.Config.lookupHost
+  rw [List.foldl_append]
+  exact lookup_fold_skip name service _ h
 
 end Props.C13
